@@ -17,7 +17,7 @@ pub fn typed_rows(rng: &mut Rng) -> Vec<Vec<SqlValue>> {
     let d = |s: &str| s.parse::<vibesql_types::Date>().map(Date).unwrap_or(Null);
     let t = |s: &str| s.parse::<vibesql_types::Time>().map(Time).unwrap_or(Null);
     let ts = |s: &str| s.parse::<vibesql_types::Timestamp>().map(Timestamp).unwrap_or(Null);
-    let strs = ["", "a", "it's", "say \"hi\"", "back\\slash", "semi;colon", "line\nbreak", "-- not a comment", "ünï✓", "%_", "NULL", "tab\there"];
+    let strs = ["", "a", "it's", "say \"hi\"", "back\\slash", "semi;colon", "line\nbreak", "-- not a comment", "ünï✓", "%_", "NULL", "tab\there", "trailing\\", "x\n-- y\n;z", "''", "\r\n"];
     let mut rows = vec![
         vec![Smallint(1), Bigint(i64::MAX), Double(1.5), Real(2.5), Numeric(12.34), Character("ab   ".into()), Boolean(true), d("2024-02-29"), t("23:59:59"), ts("2024-02-29 12:00:00"), Varchar("it's".into()), Integer(i64::MAX)],
         vec![Smallint(i16::MIN), Bigint(i64::MIN), Double(-0.0), Real(f32::MAX), Numeric(-0.01), Character("     ".into()), Boolean(false), d("1999-12-31"), t("00:00:00"), ts("1999-12-31 23:59:59"), Varchar("ünï✓".into()), Integer(i64::MIN)],
@@ -31,6 +31,12 @@ pub fn typed_rows(rng: &mut Rng) -> Vec<Vec<SqlValue>> {
         let a = *rng.pick(&fr);
         let b = *rng.pick(&fr);
         rows.push(vec![Smallint(k as i16), Bigint(k as i64), Double(0.5), Real(0.25), Numeric(1.0), Character("frac ".into()), Boolean(true), d("2021-03-04"), t(a), ts(&format!("2021-03-04 {}", b)), Varchar(a.into()), Integer(k as i64)]);
+    }
+    // CHAR values whose own content ends in white space that is not the blank pad
+    for (k, f) in ["ab\t  ", "a\u{a0}   ", " x\r  ", "\t    "].iter().enumerate() {
+        if rng.chance(1, 2) {
+            rows.push(vec![Smallint(20 + k as i16), Bigint(0), Double(0.0), Real(0.0), Numeric(0.0), Character(f.to_string()), Null, Null, Null, Null, Varchar(f.to_string()), Integer(0)]);
+        }
     }
     for _ in 0..rng.usize(4) {
         rows.push(vec![
